@@ -33,6 +33,10 @@ def main() -> int:
             from checks import c09
 
             return c09.run(tier, a.seed)
+        if a.prop == "C12":
+            from checks import c12
+
+            return c12.run(tier, a.seed)
         if a.prop == "C13":
             from checks import c13
 
